@@ -4,6 +4,8 @@ set -e
 cd "$(dirname "$0")/.."
 export CARGO_NET_OFFLINE=true
 mkdir -p .work evidence replays
+# the regenerated model fragments come from /repo's working tree, never from what happens to be committed
+python3 tools/translate.py all > .work/translate.log 2>&1 || true
 (cd lean && lake build IdModel idmodel)
 (cd harness && cargo build --offline --quiet)
 (cd harness-sh && CARGO_TARGET_DIR="$PWD/target" cargo build --offline --quiet)
